@@ -161,6 +161,23 @@ Definition from_symbols (syms : list (N * code)) : res htree :=
 
 Definition new (cl : list (N * N)) : res htree := from_symbols (symbols cl).
 
+(* bitstream-io compile_read_tree / compile_queue: the read tree is tabulated per reader state.  The top level is one table
+   of 256 states (0..7 queued bits and their values); compiling a state walks the tree along the queued bits, and wherever
+   the queue runs empty at an internal node a 256-entry continuation table (indexed by the next byte) is allocated, each
+   entry compiled in the same way with the 8 bits of that byte.  [cont_tables f j]: continuation tables allocated below
+   [f] over all values of a queue of j bits (j = 0: the queue is empty here); [total_tables]: all tables of a tree *)
+Fixpoint cont_tables (f : ftree) (j : nat) : nat :=
+  match f with
+  | FLeaf _ => 0
+  | FNode z o =>
+      match j with
+      | O => S (cont_tables z 7 + cont_tables o 7)
+      | S j' => cont_tables z j' + cont_tables o j'
+      end
+  end%nat.
+Definition total_tables (f : ftree) : nat :=
+  S (fold_right (fun k a => cont_tables f k + a) 0 (seq 0 8))%nat.
+
 (* the callers in lossless.rs pass [(0, l0), (1, l1), ...] *)
 Fixpoint index_from (i : N) (cl : list N) : list (N * N) :=
   match cl with
